@@ -237,6 +237,7 @@ struct Ctx {
     k_parses: u64,
     k_fail: u64,
     k_budget_binop: u32,
+    k_budget_layout: u32,
     prim: std::collections::BTreeMap<String, u64>,
     cut_stats: std::collections::BTreeMap<String, u64>,
 }
@@ -253,6 +254,7 @@ impl Ctx {
             k_parses: 0,
             k_fail: 0,
             k_budget_binop: 60,
+            k_budget_layout: 60,
             prim: Default::default(),
             cut_stats: Default::default(),
         }
